@@ -40,7 +40,7 @@ Stopped == "kf" \in DOMAIN Ev
 NoInput == Ev.a = "Decode" /\ Ev.rc = "NOINPUT"
 Fld(f, dflt) == IF f \in DOMAIN Ev THEN Ev[f] ELSE dflt
 Obs == [bytes |-> Fld("bytes", OpaqueWire), consumed |-> Fld("consumed", 0), allocfailed |-> Fld("allocfailed", 0),
-        rc |-> Fld("rc", "FAIL"), wf |-> Fld("wf", FALSE) /\ "val" \in DOMAIN Ev, val |-> Fld("val", 0)]
+        rc |-> Fld("rc", "FAIL"), wf |-> Fld("wf", FALSE) /\ "val" \in DOMAIN Ev, val |-> Fld("val", 0), bad |-> Fld("bad", FALSE)]
 InOrder == Ev.id = sc.id /\ pc <= Len(sc.plan) /\ Ev.i = pc /\ Ev.a = sc.plan[pc].a
 Pending == IF ~InOrder THEN (IF Ev.a = "Crash" THEN {"crash"} ELSE IF Ev.a = "Timeout" THEN {"timeout"} ELSE {"out-of-order"})
            ELSE Faults(sc.plan[pc], Ev) \ Waived
